@@ -145,6 +145,7 @@ class Evaluator:
         self.loops: list = []
         self.unrolled: list = []  # (node, func, iterations) of field loops that were unrolled
         self.divisions: list = []  # (denominator term, node, func)
+        self.products: list = []  # (left, right, node, func) of every numeric product as written
         self.infeasible = False
         self.max_depth = max_depth
         self.inline_pred = inline
@@ -801,6 +802,8 @@ class Frame:
             return T.sub(a, b) if num else ("f", "sub", (a, b), ())
         if isinstance(op, ast.Mult):
             if num:
+                # the product as written (before normalisation): 0 * inf hazards are a property of the spelling
+                self.ev.products.append((a, b, node, self.f))
                 return T.mul(a, b)
             return ("f", "mul", (a, b), ())
         if isinstance(op, ast.Div):
